@@ -612,6 +612,9 @@ func CtxErr(c interface{ Err() error }) error {
 	return c.Err()
 }
 
+// CtxErrQuiet reads the cancellation state without a scheduling point (harness oracles).
+func CtxErrQuiet(c interface{ Err() error }) error { return c.Err() }
+
 func CtxDone(c interface{ Done() <-chan struct{} }) <-chan struct{} {
 	PointOp(OpCtxDone)
 	return c.Done()
